@@ -3,6 +3,7 @@ package checks
 import (
 	"fmt"
 	"runtime"
+	"runtime/debug"
 	"sort"
 	"sync"
 	"time"
@@ -82,6 +83,10 @@ func Parallel(n int, f func(worker, i int)) {
 		w = 1
 	}
 	var wg sync.WaitGroup
+	// a panic in a worker is carried over to the calling goroutine (with the worker's stack), where
+	// the checker's crash handler classifies it
+	var mu sync.Mutex
+	var crashed *WorkerPanic
 	chunk := (n + w - 1) / w
 	for wi := 0; wi < w; wi++ {
 		lo, hi := wi*chunk, (wi+1)*chunk
@@ -94,13 +99,33 @@ func Parallel(n int, f func(worker, i int)) {
 		wg.Add(1)
 		go func(wi, lo, hi int) {
 			defer wg.Done()
+			defer func() {
+				if r := recover(); r != nil {
+					mu.Lock()
+					if crashed == nil {
+						crashed = &WorkerPanic{Value: r, Stack: string(debug.Stack())}
+					}
+					mu.Unlock()
+				}
+			}()
 			for i := lo; i < hi; i++ {
 				f(wi, i)
 			}
 		}(wi, lo, hi)
 	}
 	wg.Wait()
+	if crashed != nil {
+		panic(crashed)
+	}
 }
+
+// WorkerPanic is a panic of a Parallel worker, re-raised in the caller.
+type WorkerPanic struct {
+	Value interface{}
+	Stack string
+}
+
+func (w *WorkerPanic) Error() string { return fmt.Sprintf("%v", w.Value) }
 
 // NumWorkers is the worker count Parallel uses.
 func NumWorkers() int {
